@@ -156,11 +156,72 @@ impl Stream for C09 {
             });
             cases.push(Case { kind: "oracle", labels, request: node("doc-string", vec![atom(pos), st(s)]) });
         }
+        // several sources in ONE invocation of the real command-line tool: every emitted file on its own is a well-formed
+        // form of its own document (same bytes as the in-process translation of that source alone)
+        let m = if thorough { 400 } else { 30 };
+        for k in 0..m {
+            cases.push(Case { kind: "oracle", labels: vec!["cli-multi".into()], request: node("c09-cli-multi", vec![crate::sexp::num(seed as usize % 1_000_000), crate::sexp::num(k)]) });
+        }
         cases
     }
 
     fn answer(&self, req: &Sexp) -> Sexp {
         let (tag, args) = req.as_node().expect("request node");
+        if tag == "c09-cli-multi" {
+            let mut rng = Rng::fork(args[0].as_usize().unwrap() as u64, "c09-cli", args[1].as_usize().unwrap() as u64);
+            let dir = match tempfile::Builder::new().prefix("qv-c09-").tempdir() {
+                Ok(d) => d,
+                Err(e) => return node("fail", vec![st(format!("tempdir: {e}"))]),
+            };
+            let n = 2 + rng.below(3);
+            let mut docs = vec![];
+            for i in 0..n {
+                let mut s = gen_string(&mut rng);
+                s.retain(xml::is_xml_char);
+                let pos = *rng.pick(&POSITIONS.iter().copied().filter(|p| *p != "classname").collect::<Vec<_>>());
+                let (src, _) = document(pos, &s, rng.below(6) as u32);
+                let ty = format!("Doc{i}");
+                std::fs::write(dir.path().join(format!("{ty}.qml")), &src).unwrap();
+                docs.push((ty, src));
+            }
+            let bin = env::cli_binary();
+            let status = std::process::Command::new(&bin)
+                .current_dir(dir.path())
+                .args(["generate-ui", "--no-dynamic-binding", "--foreign-types"])
+                .arg(format!("{}/contrib/metatypes", env::REPO))
+                .args(docs.iter().map(|(t, _)| format!("{t}.qml")))
+                .stdin(std::process::Stdio::null())
+                .stdout(std::process::Stdio::null())
+                .stderr(std::process::Stdio::null())
+                .status();
+            if status.is_err() {
+                return node("fail", vec![st("the CLI could not be started")]);
+            }
+            let mut written = 0;
+            for (ty, src) in &docs {
+                let t = env::translate(&self.tm, src, ty, Mode::Reject);
+                let path = dir.path().join(format!("{}.ui", ty.to_lowercase()));
+                match (t.accepted(), std::fs::read_to_string(&path)) {
+                    (true, Ok(ui)) => {
+                        written += 1;
+                        let root = match xml::parse(&ui) {
+                            Ok(r) => r,
+                            Err(e) => return node("fail", vec![st(format!("{ty}: file written by a multi-source run is not well-formed: {e}"))]),
+                        };
+                        if let Err(e) = designer::check_ui(&root, ty) {
+                            return node("fail", vec![st(format!("{ty}: outside the Designer grammar: {e}"))]);
+                        }
+                        if Some(&ui) != t.ui.as_ref() {
+                            return node("fail", vec![st(format!("{ty}: file written by a multi-source run differs from the translation of that source alone"))]);
+                        }
+                    }
+                    (true, Err(_)) => return node("fail", vec![st(format!("{ty}: accepted in-process but no .ui written by the CLI"))]),
+                    (false, Ok(_)) => return node("fail", vec![st(format!("{ty}: rejected in-process but a .ui was written"))]),
+                    (false, Err(_)) => {}
+                }
+            }
+            return node("ok", vec![atom("sources"), crate::sexp::num(docs.len()), atom("written"), crate::sexp::num(written)]);
+        }
         let (pos, s) = match tag {
             "spec-xmlread" => (args[1].as_atom().unwrap(), args[2].as_str().unwrap()),
             _ => (args[0].as_atom().unwrap(), args[1].as_str().unwrap()),
